@@ -14,9 +14,8 @@ CONSTANTS
   DialFails = FALSE
   SfScripted = TRUE
   EnvLite = FALSE
-  AsIs_Spin = FALSE
   AsIs_SharedConfig = FALSE
   Mut = "none"
 SPECIFICATION GenSpec
-INVARIANTS TypeOK CopyLaw SocksClosedOnce SfClosedOnce ReplyLaw ConfigIsolation ConfigSeenWhenDue LoopEndsOnlyOnPerm LnClosedByLoop NoSpin NoLeak NoStuck
+INVARIANTS TypeOK CopyLaw SocksClosedOnce SfClosedOnce ReplyLaw ConfigIsolation ConfigSeenWhenDue LoopEndsOnlyOnPerm LnClosedByLoop NoLeak NoStuck
 CHECK_DEADLOCK FALSE
